@@ -402,6 +402,10 @@ macro_rules! impl_nio_read {
                     }
                     let error_kind = std::io::Error::last_os_error().kind();
                     if error_kind == std::io::ErrorKind::WouldBlock {
+                        if !blocking {
+                            // the caller made the socket non-blocking, report EAGAIN like the native call
+                            break;
+                        }
                         //wait read event
                         left_time = start_time
                             .saturating_add($crate::syscall::recv_time_limit($fd))
@@ -489,6 +493,10 @@ macro_rules! impl_nio_read_buf {
                     }
                     let error_kind = std::io::Error::last_os_error().kind();
                     if error_kind == std::io::ErrorKind::WouldBlock {
+                        if !blocking {
+                            // the caller made the socket non-blocking, report EAGAIN like the native call
+                            break;
+                        }
                         //wait read event
                         left_time = start_time
                             .saturating_add($crate::syscall::recv_time_limit($fd))
@@ -601,7 +609,8 @@ macro_rules! impl_nio_read_iovec {
                     }
                     let error_kind = std::io::Error::last_os_error().kind();
                     if error_kind == std::io::ErrorKind::WouldBlock {
-                        if received > 0 {
+                        if received > 0 || !blocking {
+                            // the caller made the socket non-blocking, report EAGAIN like the native call
                             break;
                         }
                         //wait read event
@@ -696,6 +705,10 @@ macro_rules! impl_nio_write_buf {
                     }
                     let error_kind = std::io::Error::last_os_error().kind();
                     if error_kind == std::io::ErrorKind::WouldBlock {
+                        if !blocking {
+                            // the caller made the socket non-blocking, report EAGAIN like the native call
+                            break;
+                        }
                         //wait write event
                         left_time = start_time
                             .saturating_add($crate::syscall::send_time_limit($fd))
@@ -809,7 +822,8 @@ macro_rules! impl_nio_write_iovec {
                     }
                     let error_kind = std::io::Error::last_os_error().kind();
                     if error_kind == std::io::ErrorKind::WouldBlock {
-                        if sent > 0 {
+                        if sent > 0 || !blocking {
+                            // the caller made the socket non-blocking, report EAGAIN like the native call
                             break;
                         }
                         //wait write event
